@@ -222,10 +222,11 @@ def judge(case, m):
         m.current_case = case
     rng = np.random.default_rng(case["frame"]["seed"] + 2)
     idx = rng.integers(0, len(df), size=int(rng.integers(1, len(df) + 2)))
-    new = df.iloc[idx]
+    new = df.iloc[idx].copy()
     for kind, part in (("common", dm.common), ("group", dm.group)):
         if part is None:
             continue
+        new = df.iloc[idx].copy()
         m.ev("newdata-evaluates")
         try:
             r = part.evaluate_new_data(new)
@@ -234,6 +235,26 @@ def judge(case, m):
             if got.shape != want.shape or not np.allclose(got, want, rtol=1e-10, atol=1e-12, equal_nan=True):
                 m.violation("newdata-evaluates", f"{kind}: rows {idx[:8].tolist()}... of the training frame do not "
                             "reproduce the training rows", case=case, key="driver-values")
+        except Exception as e:
+            m.violation("newdata-evaluates", f"{kind}: {type(e).__name__}: {e}", case=case, key="raises:" + type(e).__name__)
+            continue
+        # the caller changes the SAME frame object in place (other rows of the training frame) and asks again
+        idx2 = rng.integers(0, len(df), size=len(idx))
+        m.ev("newdata-evaluates")
+        try:
+            # (raw entry point, so that no monitor-made evaluation sits between the two calls on this object)
+            raw = attach.ORIG[kind + "_end"]
+            with core.shadow():
+                raw(part, new)
+            for c in new.columns:
+                new[c] = df[c].iloc[idx2].to_numpy() if not isinstance(df[c].dtype, pd.CategoricalDtype) else \
+                    pd.Categorical(df[c].iloc[idx2].tolist(), categories=df[c].dtype.categories, ordered=df[c].dtype.ordered)
+            with core.shadow():
+                got2 = np.asarray(raw(part, new).design_matrix, dtype=float)
+            want2 = np.asarray(part.design_matrix, dtype=float)[idx2]
+            if got2.shape != want2.shape or not np.allclose(got2, want2, rtol=1e-10, atol=1e-12, equal_nan=True):
+                m.violation("newdata-evaluates", f"{kind}: the same frame object, changed in place, still gives the rows evaluated before",
+                            case=case, key="stale-after-inplace-change")
         except Exception as e:
             m.violation("newdata-evaluates", f"{kind}: {type(e).__name__}: {e}", case=case, key="raises:" + type(e).__name__)
     for t in case["terms"]:
